@@ -71,6 +71,14 @@ def absCons (absvar v : V) : List (LinCon V) :=
 def orCons (z : V) (xs : List V) : List (LinCon V) :=
   ⟨(1, z) :: xs.map (fun x => ((-1 : Rat), x)), .le, 0⟩ :: xs.map (fun x => ⟨[(1, z), (-1, x)], .ge, 0⟩)
 
+/-- XOR block of major.py (`CXOR`): five constraints on `VXOR`, `VNEW`, `VOR`. -/
+def xorCons (x n o : V) : List (LinCon V) :=
+  [⟨[(1, x), (-1, n), (-1, o)], .le, 0⟩,          -- VXOR <= VNEW + VOR
+   ⟨[(1, x), (1, n), (1, o)], .le, 2⟩,            -- VXOR <= 2 - VNEW - VOR
+   ⟨[(1, x), (-1, n), (1, o)], .ge, 0⟩,           -- VXOR >= VNEW - VOR
+   ⟨[(1, x), (1, n), (-1, o)], .ge, 0⟩,           -- VXOR >= VOR - VNEW
+   ⟨[(1, x)], .ge, 1⟩]                            -- VXOR >= 1
+
 /-- The cut the enumeration adds: `Σ vv <= len(vv) - 1`. -/
 def cutCon (vv : List V) : LinCon V :=
   ⟨vv.map (fun v => ((1 : Rat), v)), .le, (vv.length : Rat) - 1⟩
